@@ -7,7 +7,7 @@
 From Coq Require Import ZArith Bool Reals Lra Lia.
 From Flocq Require Import Core BinarySingleNaN.
 Require Import MPSV.Dpe.DpeDefs MPSV.Dpe.DpeModel MPSV.Dpe.DpeProps MPSV.Incl.InclModel MPSV.Incl.TouchModel MPSV.Incl.TouchExch
-               MPSV.Incl.TouchProps.
+               MPSV.Incl.TouchProps MPSV.Incl.TouchUnitReal MPSV.Incl.TouchUnitD.
 Local Open Scope R_scope.
 
 (* ---- truncation of an integer significand to 53 bits (as TouchModel.trunc53 computes it) *)
@@ -135,4 +135,46 @@ Proof.
   - rewrite OG. split; intro K.
     + destruct (Rle_or_lt 0 (dy cm ce)); [assumption|]. apply Sn in H. lra.
     + destruct (Rle_or_lt 0 (rval d)); [lra|]. apply Sn in H. lra.
+Qed.
+
+(* ---------------------------------------------------------------- mps_mtouchunit, the decision
+   mpc_mod (mab, z) at the precision of the approximation; mpf_sub_eq_ui (mab, 1); mpf_get_rdpe (ab, mab);
+   rdpe_mul_d (rad, drad, n); if (rdpe_lt (rad, ab)) return false; rdpe_neg_eq (ab); return rdpe_ge (rad, ab);
+   [mtouch_unit_ab_ge] is this decision on the DPE ab (the code of /repo after fixes/C08_munit_tangent.patch).  Whatever the
+   error delta of ab as an approximation of |z| - 1 (mpc_mod: two products, a sum and a square root truncated at the
+   precision of the number, then the 53-bit truncation of mpf_get_rdpe), as long as it stays below (n (1 - u) - 1) r the
+   answer `no touch' is right for the disc D(z, r) itself and the sign of ab names the side. *)
+Lemma rdpe_neg_spec : forall c, normalised c -> normalised (rdpe_neg c) /\ rval (rdpe_neg c) = - rval c /\ esp (rdpe_neg c) = esp c.
+Proof.
+  intros c [Fc Nc]. unfold rdpe_neg.
+  assert (V : B2R (fneg (mnt c)) = - B2R (mnt c)) by (unfold fneg; apply B2R_Bopp).
+  assert (F : is_finite (fneg (mnt c)) = true) by (unfold fneg; rewrite is_finite_Bopp; assumption).
+  split; [|split]; [| |reflexivity].
+  - split; [exact F|]. cbn [mnt esp]. rewrite V, Rabs_Ropp. destruct Nc as [[Z0 E0]|B]; [left; split; [lra|exact E0]|right; exact B].
+  - unfold rval; cbn [mnt esp]. rewrite V. ring.
+Qed.
+
+Theorem mtouch_unit_decision_sound : forall (n : Z) (r ab : rdpe) (Zm delta : R),
+  (2 <= n < 2 ^ 31)%Z -> normalised r -> 0 <= rval r -> (LONG_MIN + 3000 <= esp r <= LONG_MAX - 3000)%Z ->
+  normalised ab -> in_long (esp ab) ->
+  Rabs (rval ab - (Zm - 1)) <= delta -> delta <= (IZR n * (1 - u53) - 1) * rval r ->
+  mtouch_unit_ab_ge n r ab = false ->
+  (rval r + 1 < Zm /\ 0 < rval ab) \/ (Zm + rval r < 1 /\ rval ab < 0).
+Proof.
+  intros n r ab Zm delta Hn Nr Hr0 Her Nab Lab Hd Hdl H.
+  destruct (mul_d_spec n r ltac:(lia) Nr Hr0 Her) as (Nrad & Mrad & Prad & Erad).
+  unfold mtouch_unit_ab_ge in H. set (rad := rdpe_mul_d r (f_of_Z n)) in *.
+  assert (Lrad : in_long (esp rad)) by (apply MPSV.Dpe.DpeArith.esp_mid_long; exact Mrad).
+  apply Rabs_le_inv in Erad. apply Rabs_le_inv in Hd.
+  pose proof MPSV.Dpe.DpeArith.u53_pos as U.
+  assert (HR : IZR n * (1 - u53) * rval r <= rval rad) by lra.
+  destruct (rdpe_lt rad ab) eqn:C1.
+  - left. apply (order_correct OLt _ _ Nrad Nab Lrad Lab) in C1. simpl in C1. split; lra.
+  - right. destruct (rdpe_neg_spec ab Nab) as (Nn & Vn & En).
+    assert (Ln : in_long (esp (rdpe_neg ab))) by (rewrite En; exact Lab).
+    assert (K : rval rad < - rval ab).
+    { destruct (Rlt_le_dec (rval rad) (- rval ab)) as [|C]; [assumption|exfalso].
+      assert (K : ord_R OGe (rval rad) (rval (rdpe_neg ab))) by (simpl; rewrite Vn; lra).
+      apply (order_correct OGe _ _ Nrad Nn Lrad Ln) in K. change (rdpe_ord OGe) with rdpe_ge in K. rewrite K in H. discriminate. }
+    split; lra.
 Qed.
